@@ -24,6 +24,8 @@ EXTENDS Gen_WireRR, PresentRR
 CONSTANTS PMode
 
 -----------------------------------------------------------------------------
+TableCodes(tab) == { tab[i][2] : i \in 1..Len(tab) }
+
 NastyStr == <<
   <<>>, <<34>>, <<92>>, <<59>>, <<40>>, <<41>>, <<32>>, <<10>>, <<0>>, <<127>>, <<255>>, <<9>>, <<13>>,
   <<97, 32, 98>>, <<97, 59, 98>>, <<40, 97, 41>>, <<97, 34, 98>>, <<97, 92, 98>>, <<92, 34>>, <<34, 113, 34>>,
@@ -82,16 +84,25 @@ Nsec3Msg(j) ==
   One1(50, [Hash |-> 1, Flags |-> j % 2, Iterations |-> (j * 13) % 65536, SaltLength |-> Len(salt), Salt |-> salt,
             HashLength |-> 20, NextDomain |-> Hash20(j), TypeBitMap |-> map])
 
+\* CERT: every certificate type and algorithm that has a mnemonic (RFC 4398 s.2.1, IANA), and their neighbours
+CertCodes == SortedSeq(TableCodes(CertTypeTable) \cup {0, 9, 252, 255, 65280})
+AlgCodes  == SortedSeq(TableCodes(AlgTable) \cup {0, 4, 9, 11, 17, 251, 255})
+CertMsg(j) ==
+  LET ty  == IF j <= Len(CertCodes) THEN CertCodes[j] ELSE 1
+      alg == IF j <= Len(CertCodes) THEN 8 ELSE AlgCodes[j - Len(CertCodes)] IN
+  One1(37, [Type |-> ty, KeyTag |-> 12345, Algorithm |-> alg, Certificate |-> <<1, 2, 3, 4, 5, 6, 7, 8>>])
+
 \* nasty owners, each with a TXT record
 OwnerMsg(j) == Msg(H0, <<>>, << RR(<< NastyLabels[j], <<120>> >>, 16, 1, Ttl1h, [Txt |-> << <<104, 105>> >>]) >>, <<>>, <<>>)
 
 -----------------------------------------------------------------------------
-TableCodes(tab) == { tab[i][2] : i \in 1..Len(tab) }
 QuickCodes == (0..300) \cup TableCodes(TypeTableRR) \cup {32767, 32770, 65279, 65280, 65281, 65534, 65535}
               \cup { c \in 0..65535 : c % 257 = 3 }
 CodeSet == IF Tier = 0 THEN QuickCodes ELSE 0..65535
 
-CodeRdata(t) == IF t \in DOMAIN Layout THEN EncRdata(t, Fix(FieldsOf(t), BaseF(FieldsOf(t)))) ELSE <<1, 2, 3>>
+\* NXT: an empty type list (the two bitmap encodings -- C01 known finding -- agree on it)
+CodeRdata(t) == IF t = 30 THEN EncName(NameA)
+                ELSE IF t \in DOMAIN Layout THEN EncRdata(t, Fix(FieldsOf(t), BaseF(FieldsOf(t)))) ELSE <<1, 2, 3>>
 CodeVector(k, c) ==
   LET t   == IF k = 1 THEN c ELSE 1
       cl  == IF k = 1 THEN 1 ELSE c
@@ -117,12 +128,14 @@ PInit ==
            \/ t \in {45, 260} /\ \E j \in 1..Len(NastyLabels) : v = <<t, 0, j>>
            \/ t = 16 /\ \E j \in 1..Len(NastyLabels) : v = <<0, 0, j>>
            \/ t = 50 /\ \E j \in 1..(Len(N3Salts) * Len(N3Maps)) : v = <<-1, 0, j>>
+           \/ t = 37 /\ \E j \in 1..(Len(CertCodes) + Len(AlgCodes)) : v = <<-2, 0, j>>
   \/ PMode = "codes" /\ \E k \in 1..2 : \E c \in CodeSet : InShard(c) /\ v = <<k, c>>
 PNext == UNCHANGED v
 
 PCase == IF PMode = "c01" THEN Case
          ELSE IF v[1] = 0 THEN OwnerMsg(v[3])
          ELSE IF v[1] = -1 THEN Nsec3Msg(v[3])
+         ELSE IF v[1] = -2 THEN CertMsg(v[3])
          ELSE NastyMsg(v[1], v[2], v[3])
 
 PVector(m) ==
